@@ -24,7 +24,7 @@ CHECKS = {
         "Hypothesis text generators (token alphabet, arbitrary Unicode, mutations of the repository's .hy files, deep nesting, cut Engine-B programs); validity-predicate oracle on the outcome type, alarm-based termination check",
         "Tens of thousands (quick) to millions (thorough) of texts are read; any exception other than LexException/PrematureEndOfInput, or a read "
         "that does not finish, is a violation. Deep-nesting inputs pin the recursion limit so RecursionError escaping the reader is visible.",
-        "Termination is observed through a 60 s/600 s alarm; inputs are <= 8 KB.",
+        "Termination is observed through a 20 s / 120 s limit per read, in a helper process that is killed when a read is stuck inside C code; inputs are <= 8 KB.",
         "textgen", "2/C18"),
     "C19": (
         "Engine-B structured text generator with recorded open-construct intervals; every cut point enumerated per text; oracle = generator ground truth (PrematureEndOfInput iff inside an unclosed construct) + REPL command-compiler leg",
@@ -94,7 +94,7 @@ CHECKS = {
         "generated string/bytes/bracket-string literals from pieces (every valid and invalid escape, raw newlines, non-ASCII, delimiters); differential against CPython's evaluation of the equivalent literal with warnings as errors",
         "A value from CPython => Hy must read one String/Bytes of the same type and value; an invalid escape or SyntaxError => LexException. Bracket strings: "
         "value by construction (one leading newline removed), delimiter recorded in brackets.",
-        "CPython 3.12's tokenizer is the reference; octal escapes above \\377 are not generated for bytes.",
+        "CPython 3.12's tokenizer is the reference; octal escapes above \\377 are recognised escapes whose value CPython defines (with a warning): judged by value.",
         "literals", "2/C23"),
     "C24": (
         "f-string structures rendered twice (Hy and Python) from one tree and evaluated in the same environment; differential on the resulting string or exception type; malformed variants must raise a SyntaxError subclass",
